@@ -964,7 +964,31 @@ def check_positions(chk, prog, unit):
                 if l.get("k") == "index":
                     e = g.lin(l["ch"][1])
                     src = None
-                    for y in walk(n["ch"][1]):
+                    rhs = n["ch"][1]
+                    r0 = X.strip(rhs)
+                    if r0 is not None and r0.get("k") == "ref" and r0.get("rk") == "local" and blk is not None:
+                        # the payload was first copied into a local: its defining assignment earlier in the same basic block,
+                        # with the node pointer it was read through unchanged since
+                        els = [f.nodes.get(e_) for e_ in blk.el]
+                        els = els[:next((k_ for k_, y in enumerate(els) if y is n), 0)]
+                        for k_ in range(len(els) - 1, -1, -1):
+                            y = els[k_]
+                            if y is None:
+                                continue
+                            dl, dr = None, None
+                            if y.get("k") == "assign" and y.get("op") == "=":
+                                dl, dr = X.strip(y["ch"][0]), y["ch"][1]
+                            elif y.get("k") == "decl":
+                                for dcl in y.get("decls", ()):
+                                    if dcl["d"] == r0["d"] and dcl.get("init") is not None:
+                                        dl, dr = {"k": "ref", "d": dcl["d"]}, dcl["init"]
+                            if dl is not None and dl.get("k") == "ref" and dl.get("d") == r0["d"]:
+                                ptrs = {z["d"] for z in walk(dr) if z.get("k") == "ref" and z.get("d") in g.ptrvars}
+                                later = els[k_ + 1:]
+                                if not any(z is not None and z.get("k") == "assign" and X.strip(z["ch"][0]).get("d") in ptrs for z in later):
+                                    rhs = dr
+                                break
+                    for y in walk(rhs):
                         if y.get("k") == "call" and re.search(r"_item_get_data$", X.callee_name(y) or ""):
                             src = g.pos(y["ch"][1])
                         if y.get("k") == "member" and y.get("n") == "data":
